@@ -29,7 +29,7 @@ COMPONENTS = {
 ASSUMPTIONS = ["a fresh process that starts in another working directory is configured with the same physical directories",
                "directories are usable (creatable, writable)"]
 PROBES = ["internal:rel", "internal:symlinked_parent", "internal:nested", "internal:trailing", "data:rel", "data:symlinked_parent",
-          "cache:0/False", "load_after_chdir", "load_in_fresh_process", "second_view_reuses_blob", "views_diverge", "nested_keep",
+          "cache:0/False", "load_after_chdir", "load_in_fresh_process", "relative_configuration_from_new_cwd", "second_view_reuses_blob", "views_diverge", "nested_keep",
           "second_view_reuses_nested_keep"]
 FORMS = ["abs", "rel", "trailing", "nested", "symlinked_parent"]
 APISRC = os.path.join(VERIF_ROOT, "ddsim", "storesim", "apisrc")
@@ -55,6 +55,20 @@ def gen_case(streams, tier, avoid):
             case["ops"].append(["load", view, rng.choice(PATHS + ["/stage/inner"])])
         elif r < 0.85:
             case["ops"].append(["chdir"])
+            if "rel" in (case["internal"], case["data"], case["data2"]) and rng.random() < 0.5:
+                # the same (relative) configuration strings given again from the new working directory: they name
+                # other physical directories there - a new, empty store (or a new view of the same blobs)
+                v = rng.choice([0, 0, 1])
+                kept = [o for o in case["ops"] if o[0] == "keep" and o[1] == v]
+                if kept and rng.random() < 0.7:
+                    # ... after something was read back through the old store, and the same thing is kept again in the new one
+                    o = rng.choice(kept)
+                    case["ops"].insert(len(case["ops"]) - 1, ["load", v, o[2]])
+                    case["ops"].append(["relconf", v])
+                    case["ops"].append(["keep", v, rng.choice(PATHS), o[3], o[4]])
+                    case["ops"].append(["load", v, case["ops"][-1][2]])
+                else:
+                    case["ops"].append(["relconf", v])
         else:
             case["ops"].append(["restart", rng.choice(["same_cwd", "elsewhere"])])
     return case
@@ -95,8 +109,28 @@ def run_case(case):
         internal = _dirs(root, case["internal"], "int")
         views = [_dirs(root, case["data"], "dataA"), _dirs(root, case["data2"], "dataB")]
         log, violations, probes = [], [], {}
-        tables = [{}, {}]
-        computed = set()
+        import collections
+
+        tables_ = collections.defaultdict(dict)      # (view, location of its data dir) -> path table
+        computed_ = collections.defaultdict(set)     # location of the internal dir -> results computed there
+        loc = ["base"]                               # where relative strings were last resolved
+
+        class _T:
+            def __getitem__(self, v):
+                return tables_[(v, loc[0] if case["data" if v == 0 else "data2"] == "rel" else "base")]
+
+        class _C:
+            def _s(self):
+                return computed_[loc[0] if case["internal"] == "rel" else "base"]
+
+            def __contains__(self, x):
+                return x in self._s()
+
+            def add(self, x):
+                self._s().add(x)
+
+        tables = _T()
+        computed = _C()
         cur_view = None
         cwd_is_base = True
         use_abs = False
@@ -125,6 +159,7 @@ def run_case(case):
             spec = {"kind": "local", "internal": internal[k], "data": views[v][k], "cache": case["cache"]}
             proc.call({"cmd": "set_store", "store": spec})
             cur_view = v
+            loc[0] = "base"
 
         proc = start(base, False)
         after_move = False
@@ -139,6 +174,25 @@ def run_case(case):
                 after_move = True
                 log.append([step, "chdir"])
                 akey.append("cd")
+                continue
+            if k == "relconf":
+                v = op[1]
+                # (a data directory filled through one internal directory and then used with another one is not a
+                # configuration the property speaks about: the view must move whenever the blobs do)
+                if cwd_is_base or (case["internal"] == "rel" and case["data" if v == 0 else "data2"] != "rel"):
+                    continue
+                spec = {"kind": "local", "internal": internal[0], "data": views[v][0], "cache": case["cache"]}
+                try:
+                    proc.call({"cmd": "set_store", "store": spec})
+                except Exception as e:  # noqa
+                    violations.append({"oracle": "C16.roundtrip",
+                                       "detail": f"step {step}: set_store(local) with the relative configuration from another cwd failed: {str(e)[:300]}"})
+                    break
+                cur_view = v
+                loc[0] = f"cwd{ncwd}"
+                probe("relative_configuration_from_new_cwd")
+                log.append([step, "relconf", v])
+                akey.append(["relconf", v])
                 continue
             if k == "restart":
                 proc.kill()
